@@ -34,6 +34,7 @@ type World struct {
 	calls     *callIndex
 	entryC    map[*ssa.Function][]entryFact
 	EntryUsed map[string]int
+	lenRelC   map[string][]lenRel
 }
 
 func NewWorld(p *load.Program) *World {
